@@ -51,3 +51,21 @@ Proof. exact pool_for_order_independent. Qed.
 
 Theorem C02_pool_coherence_step : forall a o, PoolCoh a -> PoolCoh (fst (step a o)).
 Proof. exact step_PoolCoh. Qed.
+
+(* ---- status level: whenever the controller has no pending work ---- *)
+From Verif Require Import Model.Ctrl Proofs.CtrlP Proofs.CtrlWorldP Proofs.CtrlThmP.
+
+Theorem C02_statuses_in_named_pool : forall rank evs w s o x,
+  wrun rank evs world0 = Some w -> quiescent w ->
+  aget (w_api w) s = Some o -> In x (o_status o) ->
+  exists al p, get_alloc (c_mem (w_ctl w)) s = Some al /\
+               In p (by_name (s_pools (c_mem (w_ctl w)))) /\ p_name p = a_pool al /\ in_pool p x = true /\
+               (p_avoid p = true -> buggy x = false).
+Proof. exact quiescent_status_in_pool. Qed.
+
+(* a successful convergeBalancer writes the pool memory records as annotation, and that pool exists *)
+Theorem C02_annotation_names_owning_pool : forall rank s a o k v,
+  converge rank a s o k = CR v true -> o_lb o = true ->
+  cv_status v <> [] /\ cv_annot v = pool_of (cv_mem v) s /\
+  exists pn p, cv_annot v = Some pn /\ find_pool (s_pools (cv_mem v)) pn = Some p.
+Proof. intros rank s a o k v. exact (converge_ok_annot rank s a o k v). Qed.
